@@ -126,6 +126,8 @@ def d2_templates(ctx, prog, lk):
         upd = prog.resolve_method(ci, '_update')
         if upd is None:
             continue
+        from .. import normalize
+        upd = normalize.normal(prog, upd, skip={'get_template_index', '_get_dimension'})
         subs = [s for s in ast.walk(upd.node) if isinstance(s, ast.Subscript) and self_attr(s.value) == 'templates'
                 and isinstance(s.value, ast.Attribute)]
         for s in subs:
@@ -241,90 +243,78 @@ def d3(ctx, prog):
                     ctx.fail('C12-D3', key, f'per-class array indexed by the class value `{v}` instead of its position `{i}`: `{norm(bad[0])}`', f.where(bad[0]))
                 else:
                     ctx.ok('C12-D3', key, f'per-class arrays are indexed by the position `{i}` of each declared class', f.where(loop))
+            elif isinstance(loop, ast.For) and isinstance(loop.target, ast.Name) and isinstance(loop.iter, ast.Call) and norm(loop.iter.func) == 'range' \
+                    and len(loop.iter.args) == 1 and is_len_partitions(loop.iter.args[0]):
+                n += 1
+                i = loop.target.id
+                # a value read from self.partitions inside the loop must not index a per-class array
+                vals = {s_.targets[0].id for s_ in ast.walk(loop) if isinstance(s_, ast.Assign) and len(s_.targets) == 1 and isinstance(s_.targets[0], ast.Name)
+                        and norm(s_.value).replace(' ', '') == f'self.partitions[{i}]'}
+                bad = [s_ for s_ in ast.walk(loop) if isinstance(s_, ast.Subscript) and ((isinstance(s_.slice, ast.Name) and s_.slice.id in vals) or
+                                                                                       norm(s_.slice).replace(' ', '') == f'self.partitions[{i}]')]
+                key = f'{f.key}::for {i} in {norm(loop.iter)}'
+                if bad:
+                    ctx.fail('C12-D3', key, f'per-class array indexed by a class value instead of its position `{i}`: `{norm(bad[0])}`', f.where(bad[0]))
+                else:
+                    ctx.ok('C12-D3', key, f'per-class arrays are indexed by the position `{i}` in range(len(self.partitions))', f.where(loop))
     return n
 
 
 def d4(ctx, prog):
-    """interval evaluation of the automatic class-set selection."""
-    f = prog.need_func('scared.distinguishers.partitioned', '_PartitionnedDistinguisherBaseMixin._initialize')
-    # find:  LIST = [literals] ; for r in LIST: if <maxvar> <op> r: break ; self.partitions = arange(r)
-    stmts = astutil.stmts_of(f.node)
-    lit = {}
-    for st in stmts:
-        if isinstance(st, ast.Assign) and len(st.targets) == 1 and isinstance(st.targets[0], ast.Name) \
-                and isinstance(st.value, (ast.List, ast.Tuple)) and all(isinstance(const_value(e), int) for e in st.value.elts):
-            lit[st.targets[0].id] = [const_value(e) for e in st.value.elts]
-    loop = None
-    for st in stmts:
-        if isinstance(st, ast.For) and isinstance(st.target, ast.Name):
-            vals = lit.get(st.iter.id) if isinstance(st.iter, ast.Name) else (
-                [const_value(e) for e in st.iter.elts] if isinstance(st.iter, (ast.List, ast.Tuple)) else None)
-            if vals and len(st.body) == 1 and isinstance(st.body[0], ast.If) and any(isinstance(b, ast.Break) for b in st.body[0].body):
-                loop, thresholds = st, vals
+    """automatic class set: _initialize is partially evaluated (sa.confinterp) with no class set declared, for every admitted
+    first-batch maximum 0..255 (minimum 0): the class set built must be arange(n) with n > maximum, i.e. contain every value the
+    batch can hold; maxima above 255 and negative minima must be refused."""
+    from .. import confinterp as cf
+    ci = prog.need_class('scared.distinguishers.partitioned', '_PartitionnedDistinguisherBaseMixin')
+    f = ci.methods.get('_initialize')
+    if f is None:
+        raise AnalysisError('_PartitionnedDistinguisherBaseMixin._initialize not found')
     key = f'{f.key}::automatic class set'
-    if loop is None:
-        ctx.undecided('C12-D4', key, 'threshold loop of the automatic class set not recognised', f.where())
-        return
-    r = loop.target.id
-    test = loop.body[0].test
-    if not (isinstance(test, ast.Compare) and len(test.ops) == 1):
-        ctx.undecided('C12-D4', key, f'threshold test `{norm(test)}` not a single comparison', f.where(loop))
-        return
-    l, op, rt = test.left, test.ops[0], test.comparators[0]
-    if isinstance(rt, ast.Name) and rt.id == r and isinstance(l, ast.Name):
-        mvar = l.id
-        cmp = {ast.Lt: lambda m, t: m < t, ast.LtE: lambda m, t: m <= t}.get(type(op))
-    elif isinstance(l, ast.Name) and l.id == r and isinstance(rt, ast.Name):
-        mvar = rt.id
-        cmp = {ast.Gt: lambda m, t: t > m, ast.GtE: lambda m, t: t >= m}.get(type(op))
-    else:
-        cmp = None
-    if cmp is None:
-        ctx.undecided('C12-D4', key, f'threshold test `{norm(test)}` not understood', f.where(loop))
-        return
-    # the class set built after the loop
-    built = None
-    for st in stmts:
-        if isinstance(st, ast.Assign) and self_attr(st.targets[0]) == 'partitions' and isinstance(st.value, ast.Call) \
-                and norm(st.value.func).split('.')[-1] == 'arange' and st.value.args and isinstance(st.value.args[0], ast.Name) \
-                and st.value.args[0].id == r and len(st.value.args) == 1:
-            built = st
-    if built is None:
-        ctx.undecided('C12-D4', key, 'class set is not built as arange(<selected size>)', f.where(loop))
-        return
-    # admitted range of the maximum: from the refusals before the loop
-    lo, hi = 0, None
-    for st in stmts:
-        if st is loop:
+    bad, sizes = [], {}
+    und = None
+
+    def run_one(mx, mn):
+        it = cf.Interp(prog)
+        it.ext_stubs = {'numpy.nanmax': lambda a, k: mx, 'numpy.max': lambda a, k: mx, 'numpy.amax': lambda a, k: mx,
+                        'numpy.nanmin': lambda a, k: mn, 'numpy.min': lambda a, k: mn, 'numpy.amin': lambda a, k: mn,
+                        'numpy.arange': lambda a, k: ('arange',) + tuple(a)}
+        o = cf.Obj(ci, partitions=None)
+        traces = cf.Sym('traces', attrs={'shape': (cf.Sym('n'), cf.Sym('s'))})
+        data = cf.Sym('data', attrs={'shape': (cf.Sym('n'), cf.Sym('w'))})
+        try:
+            it.call(f, kwargs={f.params[1]: traces, f.params[2]: data}, selfobj=o)
+        except cf.Raised as e:
+            if o.attrs.get('partitions') is None:
+                return ('raised', e.kind)
+        except cf.Unknown as e:
+            if o.attrs.get('partitions') is None:
+                return ('unknown', str(e))
+        return ('set', o.attrs.get('partitions'))
+    for mx in range(256):
+        r = run_one(mx, 0)
+        if r[0] == 'unknown':
+            und = r[1]
             break
-        if isinstance(st, ast.If) and any(isinstance(b, ast.Raise) for b in st.body) and isinstance(st.test, ast.Compare) \
-                and len(st.test.ops) == 1 and isinstance(st.test.left, ast.Name):
-            c = const_value(st.test.comparators[0])
-            if st.test.left.id == mvar and isinstance(st.test.ops[0], ast.Gt) and isinstance(c, int):
-                hi = c
-            if st.test.left.id == mvar and isinstance(st.test.ops[0], ast.GtE) and isinstance(c, int):
-                hi = c - 1
-    if hi is None:
-        ctx.undecided('C12-D4', key, f'no upper refusal bound on `{mvar}` found before the threshold loop', f.where(loop))
+        if r[0] == 'raised':
+            bad.append(f'first-batch maximum {mx} is refused ({r[1]})')
+            continue
+        p = r[1]
+        if not (isinstance(p, tuple) and p and p[0] == 'arange' and len(p) == 2 and isinstance(p[1], int)):
+            und = f'class set built as {p}, not arange(<size>)'
+            break
+        sizes.setdefault(p[1], []).append(mx)
+        if not p[1] > mx:
+            bad.append(f'first-batch maximum {mx} gives the class set arange({p[1]}) = 0..{p[1] - 1}: the value {mx} itself is not a class (its traces are dropped)')
+    if und:
+        ctx.undecided('C12-D4', key, f'automatic class set not evaluable: {und}', f.where())
         return
-    ctx.assume('first-batch values are non-negative integers not above the refusal bound (the code refuses the others explicitly)')
-    bad = []
-    for m in range(lo, hi + 1):
-        chosen = thresholds[-1]
-        for t in thresholds:
-            if cmp(m, t):
-                chosen = t
-                break
-        if not (0 <= m <= chosen - 1):
-            bad.append((m, chosen))
     if bad:
-        ms = [b[0] for b in bad]
-        ctx.fail('C12-D4', key, f'for first-batch maxima {ms[:6]}{"..." if len(ms) > 6 else ""} the selected class set arange({bad[0][1]}) does not '
-                                f'contain the maximum (thresholds {thresholds}, test `{norm(test)}`): those traces are silently dropped',
-                 f.where(loop), failing_maxima=ms[:20])
+        ctx.fail('C12-D4', key, f'{bad[0]} ({len(bad)} of 256 maxima affected)', f.where(), affected=len(bad))
     else:
-        ctx.ok('C12-D4', key, f'for every admitted maximum 0..{hi} the set arange(r) selected by `{norm(test)}` over {thresholds} contains it',
-               f.where(loop), evaluated=hi + 1)
+        ctx.ok('C12-D4', key, f'every first-batch maximum 0..255 is a member of the class set built for it (sizes {dict((k, (v[0], v[-1])) for k, v in sorted(sizes.items()))})', f.where(), maxima=256)
+    for mx, mn, what in ((256, 0, 'a maximum above 255'), (300, 0, 'a maximum above 255'), (5, -1, 'a negative minimum')):
+        r = run_one(mx, mn)
+        ctx.check(r[0] == 'raised', 'C12-D4', f'{f.key}::refuses {what} ({mx}, {mn})', f'{what} is not refused when no class set is declared ({r})', f'{what} is refused', f.where())
 
 
 def run(ctx, prog):
